@@ -323,3 +323,32 @@ for _L in (1, 2, 7, 9, 12, 14, 15):
 FAULTS = {"btype3": "block", "len_nlen": "block", "oversubscribed_ll": "block", "oversubscribed_cl": "block", "no_eob": "block", "rep16_first": "block",
           "rep_past_end": "block", "dist_sym_30": "symbol", "ll_sym_286": "symbol", "dist_too_far": "lookback"}
 FAULTS.update({"extra_code:%s:%d" % (w, L): "block" for w in ("d", "ll") for L in (1, 3, 8, 11, 13, 14, 15)})
+
+
+def packed_stream(rng, total=70000, block=300, pins=(65535, 66999, 68001)):
+    """many short non-final dynamic blocks over tiny alphabets (2-4 bit codes, so that decoders with multi-symbol lookup entries pack
+    'literal(s) + length' and 'literal + end-of-block' into one entry), literals alternating with short matches at near and far distances;
+    at every pinned output position a literal is followed directly by a match with a far distance (many extra bits);
+    returns (stream, output positions at which a block ends)"""
+    bw = BitWriter(); have = 0; ends = []
+    while have < total:
+        lits = rng.sample([97, 98, 99, 100, 101, 102], rng.choice([1, 2, 3, 4]))
+        toks = []; n = 0
+        while n < block:
+            pos = have + n
+            if pos in pins:
+                toks.append(("lit", rng.choice(lits))); toks.append(("match", 3, min(pos + 1, rng.choice([1500, 3000, 9000])))); n += 4; continue
+            ln = rng.choice([3, 3, 4, 5, 6])
+            if pos == 0 or rng.random() < 0.55 or any(pos < q < pos + ln for q in pins):
+                toks.append(("lit", rng.choice(lits))); n += 1
+            else:
+                d = min(rng.choice([1, 2, 3, 4, 1500, 3000, 9000, 20000]), pos)
+                toks.append(("match", ln, d)); n += ln
+        if have + n in pins or rng.random() < 0.5 or any(have + n < q < have + n + 3 for q in pins): toks.append(("lit", rng.choice(lits))); n += 1      # block ends with a literal (then the end-of-block code)
+        else: toks.append(("match", 3, min(have + n, rng.choice([1, 1500])))); n += 3
+        nsym = len(set([256] + [t[1] for t in toks if t[0] == "lit"] + [257 + len_sym(t[1]) for t in toks if t[0] == "match"]))
+        depth = 2 if nsym <= 4 else 3 if nsym <= 8 else 4
+        dyn_block(bw, rng, toks, False, maxdepth=depth, rle=rng.choice(["mixed", "plain", "short"]))
+        have += n; ends.append(have)
+    fixed_block(bw, [], True, None, rng)
+    return bw.done(), ends
